@@ -5,4 +5,8 @@ set -e
 cd "$(dirname "$0")"
 /venv/bin/python harness/gen_consts.py
 cd lean
-lake build RpycModel rpycdrv
+lake build RpycModel
+for d in $(grep -o "drv_[a-z]*" lakefile.toml | sort -u); do
+  f="Driver/$(echo ${d#drv_} | sed "s/./\U&/")Main.lean"
+  if [ -f "$f" ]; then lake build "$d"; fi
+done
